@@ -43,6 +43,8 @@ REGIONS = [REGION_F13A, "bidirected_and_uncovered_ancestor", "bidirected_and_sub
 def _case(draw, gs, plus):
     g = draw(gs)
     items = draw(cfutil.event_items(g["nodes"], max_items=3, plus=plus, edges=g["di"]))
+    if draw(st.integers(0, 39)) == 0:
+        items = []  # the empty conjunction has probability 1
     return {"g": g, "event": items, "mseed": draw(st.integers(0, 2**32)), "max_card": draw(st.sampled_from([2, 2, 2, 3]))}
 
 
@@ -55,6 +57,7 @@ def strategy(tier):
         _case(gen.admgs(2, mx, bi_densities=(0,), di_densities=(4, 6, 8)), False),
         _case(gen.admgs(2, mx, bi_densities=(3, 5), di_densities=(4, 6, 8)), False),
         _case(gen.embedded_admgs(1), False),
+        _case(gen.admgs(1, 2), True),
     )
 
 
@@ -287,7 +290,7 @@ def check(case, ignore_regions=False) -> Outcome:
             out.excluded = REGION_F13A
             return out
     labels.add("zero" if isinstance(est, Zero) else "answered")
-    if "worlds=1" not in labels:
+    if "worlds=1" not in labels and "worlds=0" not in labels:
         labels.add("worlds>=2")
     out.sample["estimand"] = est.to_y0()
     models = [FSCM(g, case["mseed"] + 7919 * k, max_card=case["max_card"] if k == 0 else 2, clique_mode=bool(k)) for k in range(2)]
